@@ -242,8 +242,9 @@ theorem tpmKeyAgreement_errIn {pa : TPMPubArea} {key : CoseKey} {pk : PubKey} (h
     exact ErrIn_bind needBytes_errIn fun _ _ => ErrIn_bind needBytes_errIn fun _ _ =>
       ErrIn_bind (ErrIn_rejectE (lib _)) fun _ _ => ErrIn_bind (ErrIn_someOr (lib _)) fun _ _ => ErrIn_rejectE (lib _)
 
-theorem tpmCertProfile_errIn {cert : CertView} (hext : cert.extsOk = true) (heku : ∀ l, cert.eku = some l → l ≠ []) :
+theorem tpmCertProfile_errIn {cert : CertView} (hext : cert.extsOk = true) :
     ErrIn InHierarchy (tpmCertProfile cert) := by
+  have hflag : tpmEkuRuleIsContains = true := by decide
   have lib : ∀ site, InHierarchy (regErr site) := fun _ => .inl rfl
   unfold tpmCertProfile
   refine ErrIn_bind (ErrIn_rejectE (lib _)) fun _ _ => ErrIn_bind (ErrIn_rejectE (lib _)) fun _ _ =>
@@ -251,16 +252,15 @@ theorem tpmCertProfile_errIn {cert : CertView} (hext : cert.extsOk = true) (heku
     ErrIn_bind (ErrIn_someOr (lib _)) fun san _ => ErrIn_bind ?_ fun attrs _ =>
     ErrIn_bind (ErrIn_rejectE (lib _)) fun _ _ => ErrIn_bind (ErrIn_rejectE (lib _)) fun _ _ =>
     ErrIn_bind (ErrIn_someOr (lib _)) fun eku heku' => ErrIn_bind ?_ fun _ _ =>
-    ErrIn_bind (ErrIn_rejectE (lib _)) fun _ _ => ErrIn_bind (ErrIn_someOr (lib _)) fun _ _ => ErrIn_rejectE (lib _)
+    ErrIn_bind (ErrIn_someOr (lib _)) fun _ _ => ErrIn_rejectE (lib _)
   · intro e he
     unfold sanAttrs at he
     split at he
     · cases he
     · cases he; exact lib _
-  · have := heku eku (someOr_ok.mp heku')
-    cases eku with
-    | nil => exact absurd rfl this
-    | cons a t => intro e he; simp [headOr, someOr] at he
+  · unfold tpmEkuCheck
+    rw [hflag]
+    exact ErrIn_rejectE (lib _)
 
 /-- tpm -/
 theorem fmt_tpm_in_hierarchy {W : World} {st : AttStmt} {ad cdj credKey : Bytes} {roots : List Root}
@@ -268,7 +268,6 @@ theorem fmt_tpm_in_hierarchy {W : World} {st : AttStmt} {ad cdj credKey : Bytes}
     (hpaTy : ∀ c, st.pubArea = some c → ∃ b, c = .bytes b) (hciTy : ∀ c, st.certInfo = some c → ∃ b, c = .bytes b)
     (hpa : ∀ b, st.pubArea = some (.bytes b) → ∃ pa, parsePubArea b = .ok pa)
     (hci : ∀ b, st.certInfo = some (.bytes b) → ∃ ci, parseCertInfo b = .ok ci)
-    (heku : ∀ l, x5cList st.x5c = .ok l → ∀ der ∈ l, ∀ c, W.x509Load der = some c → ∀ e, c.eku = some e → e ≠ [])
     (hkey : ∃ key pk, decodeCose credKey = .ok key ∧ coseToPubKey key = .ok pk) :
     MErrIn InHierarchy W (verifyTpm st (.bytes ad) cdj credKey roots) := by
   have lib : ∀ site, InHierarchy (regErr site) := fun _ => .inl rfl
@@ -286,7 +285,6 @@ theorem fmt_tpm_in_hierarchy {W : World} {st : AttStmt} {ad cdj credKey : Bytes}
   obtain ⟨leaf, rest, hl⟩ := x5cList_truthy (by simpa using runM_reject_ok'.mp hx) hx5c
   subst hl
   obtain ⟨c, hc, hext⟩ := wf.certsLoad _ hx5c leaf (by simp)
-  have hekuc := heku _ hx5c leaf (by simp) c hc
   obtain ⟨key, pk, hk, hpk⟩ := hkey
   rw [hpab, hcib]
   refine MErrIn_bind (MErrIn_liftE (fun e he => by simp [optBytes, needBytes] at he)) fun pab' hpab' => ?_
@@ -315,7 +313,7 @@ theorem fmt_tpm_in_hierarchy {W : World} {st : AttStmt} {ad cdj credKey : Bytes}
     rw [hc] at this; exact (Option.some.inj this).symm
   subst hcc
   exact MErrIn_bind (verifySignatureC_errIn (lib _) hsb (wf.cryptoAnswers _)) fun _ _ =>
-    MErrIn_liftE (tpmCertProfile_errIn hext hekuc)
+    MErrIn_liftE (tpmCertProfile_errIn hext)
 
 /-- what "well-formed" means for a SafetyNet statement: `response` is an ASCII byte string, its three JWS parts are
 base64url of a JSON object, a JSON object and a signature, the header lists at least one certificate, in base64, and
